@@ -15,6 +15,7 @@ pub fn info() -> PropInfo {
         rule: "proptest: library-issued credentials x exp in {absent, null, string, negative, now-10y..now-120s (int/float)} (must reject) or {now+1h..2100} (must accept) x nbf in {absent, past} (accept) or {now+120s..now+10y} (reject), nbf kept visible (NoSD / Custom not listing it) x format x key binding x selection; instants are computed from the wall clock at execution, never within 120 s of a boundary; oracle: accept/reject table, accepted => claims == view. Every case is non-trivial (each has a defined expectation). Distinct: hash of the case JSON.",
         assumptions: &["|harness clock - verifier clock| < 60 s within one case (same process)", "void when issuance / presentation fails"],
         needs_mock: false,
+        rounds: 4,
     }
 }
 
